@@ -32,7 +32,7 @@ ASSUMPTIONS = ["CPython's __mro__ is the reference for 'nearest class in its MRO
 MUST_SEE = [
     "remove_first", "remove_middle", "remove_last", "remove_all", "remove_single_optional", "unchanged_subtree_under_changed_root",
     "strict_base_only_generic", "raise_below_depth2", "dispatch_second_base", "unchanged_returns_self", "validate_mismatch_raised",
-    "validate_ok", "frames_checked",
+    "validate_ok", "frames_checked", "derived_visitor_after_base_used",
 ]
 CONFIG = {
     "quick": {"shards": 16, "cases": 120, "watchdog_s": 600},
@@ -146,6 +146,16 @@ def run_shard(ctx):
         ns["generic_visit"] = mk_method("generic_visit")
         ns["strict"] = strict
         V = type("DV", (ASTVisitor,), ns)
+        if rng.random() < 0.5:
+            # a base visitor class is used first; the visitor under test derives from it and adds / overrides methods
+            for p in pos:
+                V().visit(memo[id(p.spec)])
+            more = set(rng.sample(all_names, rng.randint(1, 4)))
+            ns2 = {f"visit_{c}": mk_method(f"visit_{c}") for c in more}
+            ns2["strict"] = strict
+            V = type("DV2", (V,), ns2)
+            with_methods = with_methods | more
+            ctx.count("derived_visitor_after_base_used")
         v = V()
         for p in pos:
             node = memo[id(p.spec)]
@@ -319,6 +329,8 @@ def run_shard(ctx):
 
         tns = {f"visit_{c}": mk_rule(c, a) for c, a in rules.items()}
         tns["generic_visit"] = gv
+        if rng.random() < 0.5:
+            ASTTransformVisitor().transform(root)  # the plain base visitor sees every class first
         TV = type("TV", (ASTTransformVisitor,), tns)
         snap = frame_of(U, root)
         input_ids = set(snap)
